@@ -429,11 +429,16 @@ func runCheck(repo, verif, prop string, thorough, verbose, writeEvidence, update
 	// unreachable now and was not on the pinned tree (ledger/vacuous_<prop>.json) turns its obligations into failures.
 	vacBase := map[string]bool{}
 	vacPath := filepath.Join(verif, "ledger", "vacuous_"+prop+".json")
-	if data, err := os.ReadFile(vacPath); err == nil {
-		var ids []string
-		json.Unmarshal(data, &ids)
-		for _, id := range ids {
-			vacBase[id] = true
+	// (whether a point is dead does not depend on the property being checked: the baselines of all properties count)
+	if files, err := filepath.Glob(filepath.Join(verif, "ledger", "vacuous_*.json")); err == nil {
+		for _, f := range files {
+			if data, err := os.ReadFile(f); err == nil {
+				var ids []string
+				json.Unmarshal(data, &ids)
+				for _, id := range ids {
+					vacBase[stripProp(id)] = true
+				}
+			}
 		}
 	}
 	var vacNow, vacNew []string
@@ -467,7 +472,7 @@ func runCheck(repo, verif, prop string, thorough, verbose, writeEvidence, update
 			}
 			if q := points[pt{o.prel, o.Reach, o.nline}]; q != nil && q.Result == "unsat" {
 				vacNow = append(vacNow, o.ID)
-				if !vacBase[o.ID] && !updateLedger {
+				if !vacBase[stripProp(o.ID)] && !updateLedger {
 					vacNew = append(vacNew, o.ID)
 					o.Result = "vacuous"
 					o.Model = "the program point of this obligation is unreachable under the assumptions in force there (contradictory contract assumptions, or code that became dead): the obligation holds vacuously and cannot be claimed"
